@@ -713,3 +713,138 @@ Proof.
   intros rnd dst src pos rv versions Hd Hs Hr Hv.
   exact (vneg_roundtrip rnd dst src _ Hd Hs (greased_nonempty pos rv versions) (greased_u32 pos rv versions Hr Hv)).
 Qed.
+
+(** ---- parse -> Append -> parse is a fixpoint (long headers with a packet number) ---- *)
+Lemma Forall_firstn {A} (P : A -> Prop) n l : Forall P l -> Forall P (firstn n l).
+Proof.
+  revert l; induction n as [|n IH]; intros l H; [constructor|].
+  destruct l as [|x l]; [constructor|]. inversion H; subst. cbn [firstn]. constructor; auto.
+Qed.
+Lemma Forall_skipn {A} (P : A -> Prop) n l : Forall P l -> Forall P (skipn n l).
+Proof.
+  revert l; induction n as [|n IH]; intros l H; [exact H|].
+  destruct l as [|x l]; [constructor|]. inversion H; subst. cbn [skipn]. auto.
+Qed.
+
+Lemma unbe_nonneg l : Forall is_byte l -> forall acc, 0 <= acc -> 0 <= unbe l acc.
+Proof.
+  induction 1 as [|b l Hb _ IH]; intros acc Ha; cbn [unbe]; [exact Ha|].
+  apply IH. unfold is_byte in Hb. lia.
+Qed.
+
+Lemma vparse_nonneg b v n r : vparse b = inr (v, n, r) -> Forall is_byte b -> 0 <= v.
+Proof.
+  destruct b as [|f t]; [discriminate|]. cbn [vparse]. intros E Hb. inversion Hb as [|? ? Hf Ht]; subst.
+  destruct (_ <? _)%nat; [discriminate|]. inversion E; subst.
+  apply unbe_nonneg; [apply Forall_firstn; exact Ht|]. unfold is_byte in Hf. lia.
+Qed.
+
+(* a packet number of pnLen bytes is below 2^(8*pnLen) *)
+Lemma unbe_pn_range l pnLen : Forall is_byte l -> zlen l = pnLen -> 1 <= pnLen <= 4 ->
+  0 <= unbe l 0 < 2 ^ (8 * pnLen).
+Proof.
+  intros Hb Hl Hp. subst pnLen. unfold is_byte in Hb.
+  destruct l as [|a [|b [|c [|d [|e l]]]]]; zl; try (pose proof (zlen_nonneg l)); try lia;
+    repeat match goal with H : Forall _ (_ :: _) |- _ => inversion H; clear H; subst end;
+    cbn [unbe].
+  - change (2 ^ (8 * (1 + 0))) with 256. lia.
+  - change (2 ^ (8 * (1 + (1 + 0)))) with 65536. lia.
+  - change (2 ^ (8 * (1 + (1 + (1 + 0))))) with 16777216. lia.
+  - change (2 ^ (8 * (1 + (1 + (1 + (1 + 0)))))) with 4294967296. lia.
+Qed.
+
+Lemma plh_length_token tb start ver ty src dst tok b4 h l e :
+  plh_length tb start ver ty src dst tok b4 = (h, l, e) -> hToken h = tok.
+Proof.
+  unfold plh_length. destruct (vparse b4) as [err|[[pl n] r']]; intros E; inversion E; subst; reflexivity.
+Qed.
+
+Lemma plh_length_nonneg tb start ver ty src dst tok b4 h l :
+  plh_length tb start ver ty src dst tok b4 = (h, l, 0) -> Forall is_byte b4 -> 0 <= hLength h.
+Proof.
+  unfold plh_length. destruct (vparse b4) as [err|[[pl n] r']] eqn:Ev; intros E Hb; inversion E; subst.
+  - cbn [hLength]. lia.
+  - cbn [hLength]. eapply vparse_nonneg; eauto.
+Qed.
+
+(* what a successfully parsed header with a packet number looks like *)
+Lemma plh_rest_pn_facts tb start ver src dst b3 h l :
+  plh_rest tb start ver src dst b3 = (h, l, 0) -> pn_type (hType h) -> Forall is_byte b3 ->
+  valid_version ver /\ 0 <= hLength h /\ zlen (hToken h) <= zlen b3 /\
+  (hType h =? H_PacketTypeInitial = false -> hToken h = []).
+Proof.
+  intros E Ht Hb.
+  destruct (plh_rest_type _ _ _ _ _ _ _ _ E) as [[_ E0] | [Nv [Sv Ety]]].
+  { rewrite E0 in Ht. destruct Ht as [X | [X | X]]; discriminate X. }
+  split; [apply supported_cases; exact Sv|].
+  unfold plh_rest in E. replace (ver =? 0) with false in E by lia. rewrite Sv in E. cbn [negb] in E.
+  rewrite <- Ety in E. rewrite (pn_type_not_retry _ Ht) in E.
+  destruct (hType h =? H_PacketTypeInitial) eqn:Ei.
+  - destruct (vparse b3) as [err|[[tl n] b3']] eqn:Ev.
+    { inversion E as [[X Y Z]]; destruct err; try discriminate Z. }
+    pose proof (vparse_consumed _ _ _ _ Ev) as [Hn Hr].
+    destruct (tl >? zlen b3'). { inversion E as [[X Y Z]]; try discriminate Z. }
+    assert (Hb3' : Forall is_byte b3').
+    { destruct b3 as [|f t]; [discriminate|]. cbn [vparse] in Ev. destruct (_ <? _)%nat; [discriminate|].
+      inversion Ev; subst. apply Forall_skipn. inversion Hb; assumption. }
+    split; [eapply plh_length_nonneg; [exact E|apply Forall_skipn; exact Hb3']|].
+    apply plh_length_token in E. rewrite E. split; [|discriminate].
+    pose proof (zlen_zfirstn_le tl b3'). lia.
+  - split; [eapply plh_length_nonneg; eauto|].
+    apply plh_length_token in E. rewrite E. split; [apply zlen_nonneg|reflexivity].
+Qed.
+
+Lemma parsed_pn_facts b h : Forall is_byte b -> parse_header b = Some (h, 0) -> pn_type (hType h) ->
+  valid_version (hVersion h) /\ 0 <= hLength h /\ zlen (hToken h) <= zlen b /\
+  (hType h =? H_PacketTypeInitial = false -> hToken h = []).
+Proof.
+  intros Hb Eh Hty.
+  destruct b as [|tb r]; [discriminate|]. cbn [parse_header] in Eh.
+  destruct (parse_long_header tb r) as [[h' l] e'] eqn:E. injection Eh as Eh' Ee. subst e'.
+  destruct (plh_reaches _ _ _ _ _ E (or_introl eq_refl)) as [_ [_ [_ [_ [_ [_ R]]]]]].
+  pose proof (plh_rest_fields _ _ _ _ _ _ _ _ _ R) as [_ [_ [Rv _]]].
+  inversion Hb as [|? ? _ Hr]; subst.
+  assert (Hb3 : Forall is_byte (zskipn (hd 0 (zskipn (nth 4 r 0) (skipn 5 r))) (zskipn (nth 4 r 0 + 1) (skipn 5 r))))
+    by (repeat apply Forall_skipn; exact Hr).
+  unfold set_parsed_len in *. cbn [hType hVersion hLength hToken] in *.
+  destruct (plh_rest_pn_facts _ _ _ _ _ _ _ _ R Hty Hb3) as [F1 [F2 [F3 F4]]].
+  rewrite Rv. repeat split; auto.
+  rewrite !zlen_zskipn, zlen_skipn in F3. zl. pose proof (zlen_nonneg r). lia.
+Qed.
+
+Theorem longhdr_reencode b h c x payload :
+  Forall is_byte b -> zlen b <= maxVarInt8 ->
+  parse_header b = Some (h, 0) -> pn_type (hType h) -> hLength h <= maxVarInt2 ->
+  parse_extended h b = (c, Some x) ->
+  exists enc, append_ext x (hVersion h) = (0, enc) /\ zlen enc = get_length x /\
+    let fb := first_byte x (hVersion h) in
+    let h2 := mkHeader fb (hType h) (hVersion h) (hSrc h) (hDst h) (hLength h) (hToken h) (zlen enc - ePnLen x) in
+    parse_header (enc ++ payload) = Some (h2, 0) /\
+    parse_extended h2 (enc ++ payload) = (0, Some (mkExt h2 fb (ePnLen x) (ePn x) (zlen enc))).
+Proof.
+  intros Hb Hlen Eh Hty HL Ex.
+  pose proof (parse_header_consumed _ _ _ Eh (or_introl eq_refl)) as Hpl.
+  destruct (parse_extended_consumed _ _ _ _ Ex ltac:(lia)) as [_ [Exh [Hp [Epl Hdl]]]].
+  pose proof (accepted_cid_lens _ _ _ Eh (or_introl eq_refl)) as [Hd Hs].
+  pose proof (parsed_pn_facts b h Hb Eh Hty) as F.
+  destruct F as [Fv [FL [Ftok Fnil]]].
+  (* the packet number read from pnLen bytes is in range *)
+  assert (Hpn : ePn x mod 2 ^ (8 * ePnLen x) = ePn x).
+  { unfold parse_extended in Ex. destruct b as [|tb r]; [discriminate|].
+    destruct (Z.ltb_spec (zlen (tb :: r)) (hParsedLen h + (tb mod 4 + 1))) as [|Hge]; [discriminate|].
+    unfold read_pn in Ex. replace ((1 <=? tb mod 4 + 1) && (tb mod 4 + 1 <=? 4)) with true in Ex by lia.
+    assert (R : 0 <= unbe (zfirstn (tb mod 4 + 1) (zskipn (hParsedLen h) (tb :: r))) 0 < 2 ^ (8 * (tb mod 4 + 1))).
+    { apply unbe_pn_range; [apply Forall_firstn, Forall_skipn; exact Hb| |lia].
+      apply zlen_zfirstn. rewrite zlen_zskipn. lia. }
+    destruct (tb / 4 mod 4 =? 0); inversion Ex; subst; cbn [ePn ePnLen]; apply Z.mod_small; exact R. }
+  assert (W : wf_long x (hVersion h)).
+  { constructor; rewrite ?Exh; auto; try lia. }
+  destruct (longhdr_roundtrip x (hVersion h) payload W) as [enc [Ea [Ep Ee]]].
+  destruct (longhdr_length x (hVersion h) W) as [enc' [Ea' El]].
+  rewrite Ea in Ea'. inversion Ea'; subst enc'. clear Ea'.
+  exists enc. split; [exact Ea|]. split; [exact El|]. cbv zeta.
+  unfold parsed_header in Ep, Ee. rewrite Exh, Hpn in *.
+  assert (Et : (if hType h =? H_PacketTypeInitial then hToken h else []) = hToken h).
+  { destruct (hType h =? H_PacketTypeInitial) eqn:Ei; [reflexivity|]. symmetry. apply Fnil. reflexivity. }
+  rewrite Et in *. split; [exact Ep|exact Ee].
+Qed.
